@@ -411,12 +411,8 @@ impl<H: Hasher> Deserializable for BatchMerkleProof<H> {
         let depth = source.read_u8()?;
         let num_node_vectors = source.read_usize()?;
 
-        let mut nodes = Vec::with_capacity(num_node_vectors);
-        for _ in 0..num_node_vectors {
-            // read the digests and add them to the node vector
-            let digests = Vec::<_>::read_from(source)?;
-            nodes.push(digests);
-        }
+        // read the digest vectors; `read_many` does not trust `num_node_vectors` for pre-allocation
+        let nodes = source.read_many::<Vec<H::Digest>>(num_node_vectors)?;
 
         Ok(BatchMerkleProof { nodes, depth })
     }
